@@ -62,7 +62,8 @@ PTimes(a, m) == <<BMulSmall(a[1], m), a[2]>>
 \* components of the one-stage program (st)
 S2(I, kind, o, scal) ==
   LET r  == TLCEval(R0(I, kind, o))
-      st == StageOf(I, [alg |-> IF kind = "GS" THEN "GS" ELSE "J", ord |-> o], Discs(I))
+      st == StageOfAlg(I, [alg |-> IF kind = "GS" THEN "GS" ELSE "J", ord |-> o], Discs(I),
+                       IF kind = "GS" THEN "GS" ELSE "J", 1, 1)
       n  == Len(st.ridx)
   IN  CASE scal = "no"    -> One
         [] scal = "ncpl"  -> <<BN(IF kind = "chain" THEN Dim(I) ELSE n), 0>>
@@ -130,7 +131,7 @@ Verdict3 ==
 RInit == /\ tid \in 1..Len(Reports)
          /\ (ValidInst(R.inst) /\ R.ord \in Perms(ND(R.inst)) /\ R.run \in 1..2) = TRUE
          /\ Start(R.inst, [alg |-> "J", w |-> 2, ord |-> R.ord, t |-> 1, maxit |-> 1, scal |-> "no",
-                           warm |-> FALSE, runs |-> 1], ExAux(R.inst))
+                           warm |-> FALSE, runs |-> 1, a1 |-> "J", t1 |-> 1, m1 |-> 1], ExAux(R.inst))
          /\ (R.scal \in {"no", "ncpl"} \/ R.kind \in {"J", "GS"}) = TRUE
 RNext == UNCHANGED <<vars, tid>>
 
